@@ -34,7 +34,7 @@ LEGAL_PREFIXES = ['', 'r', 'R', 'u', 'U']
 
 def run(ctx):
     for fn in (r1_failed_line_offset, r1_failed_lineno, r1_google_body_line, r1_freeform_regroup, r1_slice_example,
-               r1_overwrite_lineno, r1_docstring_start, r2_first_frame, r3_docstring_prefixes, r3_def_line_pattern):
+               r1_overwrite_lineno, r1_docstring_start, r2_first_frame, r3_docstring_prefixes, r3_def_line_pattern, r4_freeform_offset):
         ctx.rep.rule(fn, ctx)
 
 
@@ -425,6 +425,93 @@ def r3_def_line_pattern(ctx):
 
 
 # ---------------------------------------------------------------------------
+def r4_freeform_offset(ctx):
+    """loop-carried offset of the freeform parser (default asone mode): until the first collected part, every
+    consumed part adds its own number of lines; afterwards nothing is added.  Evaluated as a truth table over
+    (part is text, part is ignored, nothing collected yet) by pruning the loop's tests."""
+    from .common import BoolEval
+    rep = ctx.rep
+    q = 'xdoctest.core.parse_freeform_docstr_examples'
+    f = ctx.func(q)
+    g = ctx.cfg(f)
+    rd = ctx.rd(f)
+    heads = [n for n in g.nodes if n.kind == 'for' and not n.dup and not any(fr.kind == 'loop' for fr in n.frames) and is_name(n.ast.iter, 'all_parts')]
+    need(len(heads) == 1, 'C08.R4: loop over all_parts not found')
+    head = heads[0]
+    part = head.ast.target.id
+    entry, cut = graph.region_of_loop(g, head)
+    incs = [n for n in g.nodes if not n.dup and n.kind == 'stmt' and isinstance(n.ast, ast.AugAssign) and is_name(n.ast.target, 'curr_offset') and graph.in_loop_body(n, head.ast)]
+    apps = [n for n in g.nodes if not n.dup and graph.in_loop_body(n, head.ast) and any(isinstance(c.func, ast.Attribute) and c.func.attr == 'append' and is_name(c.func.value, 'curr_parts') for c in node_calls(n))]
+    need(incs and apps, 'C08.R4: offset increments / part collection not found')
+
+    def kind_of(n):
+        v = n.ast.value
+        txt = ' '.join(ast.unparse(v).split())
+        if txt in ("%s.count('\\n') + 1" % part, "1 + %s.count('\\n')" % part):
+            return 'text-lines'
+        if txt == '%s.n_lines' % part:
+            return 'code-lines'
+        if txt.startswith('sum(') and 'n_lines' in txt:
+            return 'sum-of-collected'
+        return 'other:' + txt
+
+    def atom_of(e):
+        if isinstance(e, ast.Call) and is_name(e.func, 'isinstance') and len(e.args) == 2 and is_name(e.args[0], part) and is_name(e.args[1], 'str'):
+            return ('S', True)
+        if is_name(e, 'asone'):
+            return ('A', True)
+        if is_name(e, 'curr_parts'):
+            return ('E', False)
+        if isinstance(e, ast.BoolOp) and isinstance(e.op, ast.Or) and any(is_name(v, 'ignoring') for v in e.values):
+            return ('I', True)
+        return None
+    be = BoolEval(atom_of)
+    rows = []
+    ok_all = True
+    for S in (False, True):
+        for I in (False, True):
+            for E in (False, True):
+                val = {'S': S, 'I': I, 'E': E, 'A': True}
+
+                def ef(a, b, kind, tok, val=val):
+                    if kind != 'n':
+                        return False
+                    if b.kind == 'branch' and b.attrs['test'].kind == 'test':
+                        try:
+                            if be.eval(b.attrs['test'].ast, val) != b.attrs['polarity']:
+                                return False
+                        except AnalysisError:
+                            pass
+                    return True
+                reach = graph.reachable([entry], efilter=ef, stop=[head])
+                hit = [kind_of(n) for n in incs if any(x is n for x in reach)]
+                collected = any(any(x is a for x in reach) for a in apps)
+                if S:
+                    spec_inc = ['text-lines'] if E else []
+                    spec_col = False
+                elif I:
+                    spec_inc = ['code-lines'] if E else []
+                    spec_col = False
+                else:
+                    spec_inc = []
+                    spec_col = True
+                rows.append({'text': S, 'ignored': I, 'nothing_collected': E, 'increments': hit, 'collected': collected})
+                if sorted(hit) != spec_inc or collected != spec_col:
+                    ok_all = False
+    rep.ob('C08.R4', ctx.loc(f, head.ast), 'freeform offset accumulation (asone)', ok_all,
+           'before the first collected part every text part adds count("\\n") + 1 and every ignored part its n_lines; afterwards nothing is added (8 valuations)' if ok_all else
+           'the offset of a freeform doctest is not the number of lines before its first part: %s' % rows, anchor=q)
+    rep.note('freeform_offset_table', rows)
+    init = [d for d in rd.defs_of('curr_offset') if isinstance(d.value, ast.Constant) and d.value.value == 0 and not d.node.frames]
+    rep.ob('C08.R4', ctx.loc(f, init[0].node.ast if init else f.node), 'curr_offset = 0', bool(init), 'starts at the docstring start' if init else 'offset not initialised to 0', nontrivial=False, anchor=q)
+    # the text part is the newline-join of its lines (so count + 1 is its number of lines)
+    fp = ctx.func('xdoctest.parser.DoctestParser._package_groups')
+    ok = any(isinstance(d.value, ast.Call) and isinstance(d.value.func, ast.Attribute) and d.value.func.attr == 'join' and isinstance(d.value.func.value, ast.Constant) and d.value.func.value.value == '\n'
+             for d in ctx.rd(fp).defs if d.name == 'text_part')
+    rep.ob('C08.R4', ctx.loc(fp, fp.node), "text part = '\\n'.join(lines)", ok, 'a text part of k lines contains k - 1 newlines' if ok else 'text parts are not newline joins: count + 1 is not their number of lines', nontrivial=False, anchor=fp.qualname)
+
+
+# ---------------------------------------------------------------------------
 from ..selftest import fire, silent      # noqa: E402
 
 DE = 'xdoctest/doctest_example.py'
@@ -455,6 +542,9 @@ VARIANTS = [
     fire('revert-fix-F3-def-line-pattern', 'C08.R3', (SA, "            pattern = r'\\s*(async\\s+)?def\\s*' + node.name\n", "            pattern = r'\\s*def\\s*' + node.name\n")),
     silent('prefix-check-explicit-tuple',
            (SA, "if startline.strip().lower().startswith((trip, 'r' + trip, 'u' + trip)):", "if startline.strip().startswith((trip, 'r' + trip, 'R' + trip, 'u' + trip, 'U' + trip)):", 0)),
+    fire('freeform-text-offset-off-by-one', 'C08.R4', (CO, "                if not curr_parts:\n                    curr_offset += part.count('\\n') + 1\n", "                if not curr_parts:\n                    curr_offset += part.count('\\n')\n")),
+    fire('freeform-offset-keeps-growing', 'C08.R4', (CO, "                if not curr_parts:\n                    curr_offset += part.count('\\n') + 1\n", "                curr_offset += part.count('\\n') + 1\n")),
+    fire('freeform-ignored-part-not-counted', 'C08.R4', (CO, "                if asone:\n                    if not curr_parts:\n                        curr_offset += part.n_lines\n", "                if asone:\n                    pass\n")),
     silent('offset-arithmetic-refolded',
            (DE, "                offset += self.failed_part.n_exec_lines\n            elif", "                offset += self.failed_part.n_exec_lines - 1\n            elif"),
            (DE, "                offset += self.failed_part.n_exec_lines + 1\n", "                offset += self.failed_part.n_exec_lines\n"),
